@@ -34,15 +34,25 @@ CODES = {
 
 def run(ctx):
     ctx.static_and_proofs("validate")
-    n = 600 if ctx.tier == "quick" else 12000
+    n = 1500 if ctx.tier == "quick" else 30000
     cases = ctx.harness("c16", ["-n", str(n)], timeout=3000)
     if cases is None:
         ctx.evidence(dict(evaluations=0, distinct_nontrivial=0, rule="harness did not run", samples=[]))
         return
     terms = [c["coq"] for c in cases]
-    results, infos = fw.eval_cases(ctx.work, "validate", HEADER, "case", "check_case", "case_ok", terms, timeout=2400)
+    # evaluated in batches so that no coqc process holds more than ~200 plans
+    results, infos = [], []
+    batch = 16 * 200
+    for b0 in range(0, len(terms), batch):
+        import os
+        r, inf = fw.eval_cases(os.path.join(ctx.work, "batch%d" % (b0 // batch)), "validate", HEADER, "case", "check_case",
+                               "case_ok", terms[b0:b0 + batch], timeout=2400)
+        for i in inf:
+            i["shard"] = "%d.%d" % (b0 // batch, i["shard"])
+        results += r
+        infos += inf
     for info in infos:
-        ctx.oblige("corr_ok shard %d (%d cases): forallb case_ok cases = true" % (info["shard"], info["n"]), info["rc"] == 0)
+        ctx.oblige("corr_ok shard %s (%d cases): forallb case_ok cases = true" % (info["shard"], info["n"]), info["rc"] == 0)
     bad = []
     for c, r in zip(cases, results):
         if r is None:
@@ -81,6 +91,8 @@ def run(ctx):
         rule="case = one plan from harness/plangen (1-3 blocks x 1-3 sequences x 1-3 actions, check groups with p in {.15,.3,.5,.8}, "
              "keys with p in {.1,.4,.8}); every 5th is left valid, the others get 1-3 mutations (5:3:2) out of %d kinds "
              "(the first kind cycles through all kinds, the rest uniform; each at a uniformly chosen applicable object); "
+             "half of the valid plans have their stored form altered through the vault (Update*: state / attempts / reason; Create: id version, "
+             "submit time zero / 31 min / 29 min old, non-check plugin) before Start is called; "
              "distinct = distinct (plan term, verdicts) by hash; non-trivial = at least one mutation applied or more than 3 objects"
              % len(set(muts) - {"(none: valid plan)"}),
         samples=[dict(id=c["id"], input=c["input"], dist=c["dist"], observed=c["observed"]) for c in cases[:4]],
@@ -91,6 +103,8 @@ def run(ctx):
         start_called=len(started), start_refused=sum(1 for s in started if s == 0),
         distribution=dict(mutation_kinds=histogram_all(muts),
                           mutations_applied=fw.histogram(len(c["dist"]["mutations"]) for c in cases),
+                          start_tamper=histogram_all("%s -> start=%d" % (c["dist"].get("tamper") or "(none)", c["dist"]["start"])
+                                                     for c in cases if c["dist"]["start"] != 3),
                           objects=fw.histogram(min(c["dist"]["objects"], 60) // 10 * 10 for c in cases),
                           verdicts=fw.histogram("validate=%d submit=%d start=%d" % (c["dist"]["validate"], c["dist"]["submit"], c["dist"]["start"]) for c in cases)),
         coq_shards=[dict(shard=i["shard"], n=i["n"], rc=i["rc"], wall_s=round(i["wall"], 1)) for i in infos],
